@@ -83,8 +83,29 @@ def gen_files(r, txn, variants=()):
             files[name + 'e'] = dict(files[name], name=name + 'e', text=t2)
     for name in ('C', 'D'):
         rows = GR.gen_csv_rules(r, txn, n=r.choice([1, 2, 3]))
+        for i, v in enumerate(list(variants)):
+            # expression-shaped Pattern cells (field.x == …, amount > …, source == …): evaluable for some lines of the statement only
+            dr = RC.discriminating_rule(r, txn, v, idx=i) if r.random() < 0.6 else None
+            if dr and not dr[1] and 'lets' not in dr[0] and GR_is_expression_cell(dr[0]['match']):
+                rows.insert(r.randint(0, len(rows)), (dr[0]['match'], f'E{i}', f'Expr{i}', '', ''))
+        base_f = txn.get('field') or {}
+        for v in variants:
+            vf = v.get('field') or {}
+            if vf != base_f and r.random() < 0.7:
+                # a cell that reads a captured column: an expression for the lines that have the column, not evaluable for the others
+                col = next((c for c in sorted(set(base_f) | set(vf)) if base_f.get(c) != vf.get(c)), None)
+                val = base_f.get(col, vf.get(col))
+                if col and val is not None and '"' not in val:
+                    rows.insert(0, (r.choice([f'field.{col} == "{val}"', f'field.{col} == "{val}" and amount == amount']), 'Col', 'ByColumn', '', ''))
+                    break
         files[name] = {'k': 'load', 'kind': 'csv', 'name': name, 'text': GR.render_csv_rules(rows)}
     return files
+
+
+def GR_is_expression_cell(text):
+    """cells the legacy loop hands to the expression evaluator (mirrors the documented shapes: function call, field access, comparison of a primitive)"""
+    import re
+    return bool(re.match(r'^(contains|field\.|amount\s*[<>=!]|month\s*[<>=!]|year\s*[<>=!]|day\s*[<>=!]|source\s*[<>=!])', text))
 
 
 def gen_sequence(r, n_ops):
@@ -94,6 +115,17 @@ def gen_sequence(r, n_ops):
     files = gen_files(r, txn, variants)
     txns = [RC.jtxn(txn)] + [RC.jtxn(x) for x in variants] + [RC.jtxn(GR.gen_txn(r))]
     pair = r.choice(COLLIDE)
+    words = [w for w in txn['description'].upper().split() if w.isalnum()]
+    dyn = []
+    if words:
+        # the same function on the same text with ONE argument changed (a memo keyed on the text alone would confuse them)
+        w = r.choice(words[1:] or words)
+        dyn = [(f'fuzzy("{w}")', f'fuzzy("{w}", 0.95)'), (f'fuzzy("{w}", 0.5)', f'fuzzy("{w}", 1.0)'), (f'fuzzy("{w}X", 0.6)', f'fuzzy("{w}X", 0.99)'),
+               ('split(" ", 0)', 'split(" ", 1)'), ('substring(0, 3)', 'substring(1, 3)'), (f'extract("({w})")', f'extract("({w}).*")'),
+               ('round(amount, 0)', 'round(amount, 1)'), (f'regex_replace(description, "{w}", "a")', f'regex_replace(description, "{w}", "b")'),
+               (f'fuzzy(description, "{w}", 0.3)', f'fuzzy(description, "{w}", 0.97)')]
+        if r.random() < 0.5:
+            pair = r.choice(dyn)
     names = sorted(files)
 
     def classify(t):
@@ -102,16 +134,31 @@ def gen_sequence(r, n_ops):
     def evaluate():
         e = r.choice(pair) if r.random() < 0.7 else r.choice(r.choice(COLLIDE))
         return {'k': 'eval', 'expr': e, 'txn': r.choice(txns), 'sources': None}
-    if r.random() < 0.5:
-        # directed: load P, classify a line and its near-duplicates, re-load the same path (other mode / edited in place /
-        # another file), classify the same lines again
-        p = r.choice('AB')
+    shape = r.random()
+    if shape < 0.2:
+        # directed: the same function on the same text with one argument changed, back and forth on ONE statement line
+        t = r.choice(txns[:2])
+        ops = [files[r.choice(names)]] if r.random() < 0.5 else []
+        a, b = pair
+        for a, b in [pair] + dyn:
+            if r.random() < 0.5:
+                a, b = b, a
+            ops += [{'k': 'eval', 'expr': e, 'txn': t, 'sources': None} for e in (a, b, a)]
+        if r.random() < 0.5:
+            ops += [classify(t), {'k': 'eval', 'expr': b, 'txn': t, 'sources': None}]
+        return ops
+    if shape < 0.6:
+        # directed: load P, classify a line and its near-duplicates (and the first line again), re-load the same path (other
+        # mode / edited in place) or another file, classify the same lines again
+        p = r.choice('ABCD')
         q = r.choice([n for n in names if n != p and (n.startswith(p) or r.random() < 0.4)] or names)
         lines = [txns[0]] + r.sample(txns[1:], min(len(txns) - 1, r.choice([1, 2, 3])))
+        if r.random() < 0.5:
+            lines.reverse()
         ops = [files[p]] + [classify(t) for t in lines] + [classify(lines[0])]
         if r.random() < 0.4:
             ops.append(evaluate())
-        ops += [files[q]] + [classify(t) for t in lines]
+        ops += [files[q]] + [classify(t) for t in lines] + [classify(lines[0])]
         if r.random() < 0.5:
             ops += [files[p], classify(lines[0]), classify(lines[-1])]
         return ops
